@@ -80,6 +80,13 @@ def check_reexport(kw, order):
         u = s.allobjects["pkg.user"]
         r = u.resolveName("B")
         from_defining = kw["consumer"] in ("old", "modalias")
+        if kw["consumer"] == "old" and kw["xkind"] == "class" and order.index("pkg.user") < order.index(exporter):
+            # the consumer was analysed before the move: its base was bound to the object itself and must still be
+            # (the recorded finding concerns names resolved AFTER the move only)
+            U = s.allobjects["pkg.user.U"]
+            if U.baseobjects != [X]:
+                note(why="base class bound before the move no longer leads to the documented object", got=[b_ and b_.fullName() for b_ in U.baseobjects], **ctx)
+                return False
         if r is not X:
             key = "C07:consumer-naming-the-defining-module-after-a-move-does-not-resolve"
             if from_defining and r is None and known(key):
